@@ -241,3 +241,137 @@ def addr_boundary():
 
 def addr_structured():
     return [l + b'@' + d for l in GOOD_LOCALS for d in GOOD_DOMAINS]
+
+# ------------------------------------------------------------------ TLD table / reserved names
+def case_variants(s):
+    out = {s, s.upper()}
+    out.add(bytes(c ^ 0x20 if (i % 2 == 0 and 97 <= c <= 122) else c for i, c in enumerate(s)))
+    out.add(s[:-1] + s[-1:].upper())
+    return sorted(out)
+
+def tld_labels(table, rnd, full=False):
+    """labels to look up: every row in several case patterns, every proper prefix, one-character
+    extensions, single substitutions, neighbours in table order, random unlisted labels."""
+    names = [bytes.fromhex(n) for n, l, t in table]
+    out = []
+    for i, n in enumerate(names):
+        out.extend(case_variants(n))
+        for k in range(1, len(n)):
+            out.append(n[:k])
+        for c in (b'a', b'z', b'-', b'0', b'.') + ((b'A', b'x') if full else ()):
+            out.append(n + c); out.append(c + n)
+        pos = range(len(n)) if full else sorted(set([0, len(n) // 2, len(n) - 1]))
+        for k in pos:
+            for c in (b'a', b'z', b'q'):
+                if n[k:k + 1] != c:
+                    out.append(n[:k] + c + n[k + 1:])
+        if i + 1 < len(names):
+            out.append(n + names[i + 1]); out.append(names[i + 1][:1] + n)
+    for _ in range(5000):
+        out.append(bytes(rnd.choice(b'abcdefghijklmnopqrstuvwxyz0123456789-') for _ in range(rnd.randint(1, 12))))
+    return out
+
+RESERVED = [b'test', b'example', b'invalid', b'localhost', b'onion', b'example.com', b'example.net', b'example.org']
+def one_edit(s):
+    out = set()
+    for i in range(len(s) + 1):
+        for c in (b'a', b'x', b's', b'.'):
+            out.add(s[:i] + c + s[i:])
+    for i in range(len(s)):
+        out.add(s[:i] + s[i + 1:])
+        for c in (b'a', b'x'):
+            out.add(s[:i] + c + s[i + 1:])
+    out.discard(s)
+    return sorted(out)
+
+def reserved_domains(full=False):
+    """0-3 labels of every length 1-63 (length 7 and the word 'example' in particular) before each reserved
+    suffix and before its one-edit neighbours, in several case patterns."""
+    sufs = []
+    for r in RESERVED:
+        sufs.extend(case_variants(r))
+        sufs.extend(one_edit(r))
+    sufs += [b'com', b'net', b'org', b'co', b'exampl', b'tests', b'example.co', b'example.comm', b'xexample.com']
+    pres = [b'']
+    lens = range(1, 64) if full else list(range(1, 12)) + [62, 63]
+    for n in lens:
+        pres.append(b'a' * n + b'.')
+    for w in (b'example', b'EXAMPLE', b'mailbox', b'test', b'com', b'examples', b'exampl', b'localhost', b'x.example', b'example.example',
+              b'a.b', b'a.b.c', b'example.com', b'test.example', b'abcdefg.abcdefg'):
+        pres.append(w + b'.')
+    out = []
+    for p in pres:
+        for s in sufs:
+            out.append(p + s)
+    for s in sufs[:40]:
+        out.append(s + b'.')       # root dot forms (outside the property, still compared with the model)
+    return out
+
+# ------------------------------------------------------------------ facade histories
+def enc_e(a, oracle, fault=None, buf=0):
+    i = a.rfind(b'@')
+    d = a[i + 1:] if i >= 0 else b''
+    rc, asc = oracle.get(d, (0, d))
+    if fault is not None:
+        rc, asc = fault, b''
+    return 'e%s/%d/%s/%d' % (hx(a), rc, hx(asc), buf)
+
+HIST_POOL = [b'a@b.com', b'a@test', b'bad', b'a@[1.2.3.4]', 'и@почта.рф'.encode(), b'a@xn--zz.com', b'a@abarth', b'a@b', b'"a"b@c.org', b'a@b.biz']
+
+def hist_exhaustive(oracle, maxlen):
+    """all legal sequences up to maxlen over a small pool of operations, each followed by an eav_errstr."""
+    ops = ['r0', 'r3', 'r7', 't0', 'm0', 's', 'x'] + [enc_e(a, oracle) for a in HIST_POOL[:5]] + [enc_e(HIST_POOL[0], oracle, fault=-100)]
+    out = []
+    for n in range(1, maxlen + 1):
+        for seq in itertools.product(ops, repeat=n):
+            out.append('A i s ' + ' '.join(seq) + ' x f')
+    return out
+
+def hist_random(rnd, oracle, n, length=40, codes=(-100, -304, -202, -205, 7)):
+    ops = ['r0', 'r1', 'r2', 'r3', 'r7', 'r-1', 'r4', 't0', 't1', 'm0', 'm760', 'm2040', 'm8', 'm-1', 's', 's', 'x', 'x']
+    out = []
+    for _ in range(n):
+        seq = ['i', 's']
+        for _ in range(rnd.randint(1, length)):
+            r = rnd.random()
+            if r < 0.45:
+                a = rnd.choice(HIST_POOL)
+                if rnd.random() < 0.15:
+                    seq.append(enc_e(a, oracle, fault=rnd.choice(codes), buf=rnd.randint(0, 1)))
+                else:
+                    seq.append(enc_e(a, oracle))
+            elif r < 0.5:
+                seq += ['f', 'i', 's']
+            else:
+                seq.append(rnd.choice(ops))
+        seq += ['x', 'f']
+        out.append('A ' + ' '.join(seq))
+    return out
+
+# ------------------------------------------------------------------ address-literal contents
+def ip_contents():
+    out = []
+    octs = ['0', '1', '9', '10', '99', '100', '199', '200', '249', '250', '255', '256', '259', '260', '300', '999', '00', '01', '001', '0255', '']
+    for i, o in enumerate(octs):
+        for pos in range(4):
+            q = ['1', '2', '3', '4']; q[pos] = o
+            out.append('.'.join(q))
+    out += ['1.2.3', '1.2.3.4.5', '1..2.3', '.1.2.3', '1.2.3.4.', '1.2.3.4 ', ' 1.2.3.4', '1.2.3.a', '0.0.0.0', '0.1.2.3', '00.1.2.3', '1.2.3.4]', '[1.2.3.4', '1.2.3.4]x']
+    groups = ['1', 'ab', 'ABC', 'ffff', '0', '12345', 'g', '']
+    for tag in ('IPv6:', 'ipv6:', 'IPv5:', 'IPV6:', 'x:', '', 'IPv6', 'IPv6::'):
+        for before in range(0, 9):
+            for after in range(0, 9):
+                for sep in ('::', ':'):
+                    if sep == ':' and (before == 0 or after == 0): continue
+                    a = ':'.join(['1'] * before) + sep + ':'.join(['2'] * after)
+                    out.append(tag + a)
+                    if after >= 1:
+                        out.append(tag + ':'.join(['1'] * before) + sep + ':'.join(['2'] * (after - 1) + ['1.2.3.4']))
+        for gq in groups:
+            out.append(tag + '1:2:3:4:5:6:7:' + gq)
+            out.append(tag + gq + '::1')
+            out.append(tag + '1::' + gq)
+        out += [tag + '::', tag + ':::', tag + '1:::2', tag + '::1::', tag + '1::2::3', tag + ':1:2:3:4:5:6:7', tag + '1:2:3:4:5:6:7:', tag + '1:2:3:4:5:6:7::',
+                tag + '::ffff:1.2.3.4', tag + '::ffff:0.2.3.4', tag + '::1.2.3.256', tag + '1:2:3:4:5:6:1.2.3.4', tag + '1:2:3:4:5:1.2.3.4', tag + '1:2:3:4:5:6:7:1.2.3.4',
+                tag + '1.2.3.4', tag + '::1.2.3', tag + '::1.2.3.4.5', tag + '1:2:3:4:5:6:7:8:9', tag + '::12345', tag + '::1 ', tag + ' ::1']
+    return [c.encode() for c in out]
